@@ -150,7 +150,7 @@ func init() {
 		o := o
 		p.Strata = append(p.Strata, mon.Stratum{
 			Name: "random/" + o.Name,
-			N:    qt(12000, 300000),
+			N:    qt(12000, 1200000),
 			Run: func(c *mon.Ctx, i int) {
 				prof := c01Profiles[i%len(c01Profiles)]
 				if o.Merge && prof.Scalars[len(prof.Scalars)-1] == nil {
@@ -199,7 +199,7 @@ func init() {
 	}
 	p.Strata = append(p.Strata, mon.Stratum{
 		Name: "void-sides",
-		N:    qt(2000, 40000),
+		N:    qt(2000, 160000),
 		Run: func(c *mon.Ctx, i int) {
 			o := AllDiffOpts[i%len(AllDiffOpts)]
 			prof := gen.PDefault
@@ -227,7 +227,7 @@ func init() {
 		o := o
 		p.Strata = append(p.Strata, mon.Stratum{
 			Name: "deep-chains/" + o.Name,
-			N:    qt(4000, 100000),
+			N:    qt(4000, 400000),
 			Run: func(c *mon.Ctx, i int) {
 				a, b := gen.DeepChainPair(c.R, gen.PDefault, o.Merge)
 				c.Feature("deep_chain_pairs")
@@ -237,7 +237,7 @@ func init() {
 	}
 	p.Strata = append(p.Strata, mon.Stratum{
 		Name: "yaml-read",
-		N:    qt(6000, 150000),
+		N:    qt(6000, 600000),
 		Run: func(c *mon.Ctx, i int) {
 			// the same round trip on documents read through jd's YAML reader
 			o := AllDiffOpts[i%len(AllDiffOpts)]
@@ -274,7 +274,7 @@ func init() {
 	})
 	p.Strata = append(p.Strata, mon.Stratum{
 		Name: "keyed-permuted-tuples/SetKeys(id,k2)",
-		N:    qt(6000, 100000),
+		N:    qt(6000, 400000),
 		Run: func(c *mon.Ctx, i int) {
 			o := OptKeys2
 			a := gen.KeyifyPermuted(c.R, gen.Doc(c.R, gen.PDefault), o.Keys)
